@@ -167,6 +167,10 @@ class Registry:
         return v
 
     def sum_symbolic(self, eng, v, start, line):
+        if isinstance(start, ConstSeq) and not start.items and isinstance(v, ValuesView) and v.what == 'values' \
+                and isinstance(v.d.vty, TList):
+            from . import seqs
+            return seqs.flatten_values(eng, v.d, line)
         self._unsup('sum() over symbolic collection (give the enclosing function a contract)', line)
 
     def sorted_symbolic(self, eng, args, kw, line):
